@@ -44,6 +44,8 @@ NoGrant == <<>>
 Grant(ty, lim, exp, val) == [grantee |-> "C0", type |-> ty, limit |-> lim, expired |-> exp, val |-> val]
 GrantKinds(m) == LET t == TypeOf(m) IN
     IF t = "-" THEN {NoGrant}
+    ELSE IF t = "ibc" THEN {NoGrant, <<Grant(t, "", FALSE, 0)>>, <<Grant(t, Amt, FALSE, 0)>>, <<Grant(t, "999", FALSE, 0)>>,
+                            <<Grant(t, "5000000", FALSE, 0)>>, <<Grant(t, "", TRUE, 0)>>, <<Grant(t, "", FALSE, 2)>>, <<Grant("delegate", "", FALSE, 0)>>}
     ELSE {NoGrant, <<Grant(t, "", FALSE, 0)>>, <<Grant(t, Amt, FALSE, 0)>>, <<Grant(t, "999", FALSE, 0)>>,
           <<Grant(t, "5000000", FALSE, 0)>>, <<Grant(t, "", TRUE, 0)>>, <<Grant(t, "", FALSE, 2)>>,
           <<Grant(IF t = "delegate" THEN "undelegate" ELSE "delegate", "", FALSE, 0)>>}
@@ -153,13 +155,14 @@ C04Matrix == UNION {
          who \in Whos, g \in GrantKinds(m), a \in {Amt}} : m \in Methods}
     \cup {[setup |-> Setup(IF m = "withdrawCommission" THEN "v1" ELSE "a1", "self", NoGrant, Z), top |-> Pc(0, "catch", m, who, Amt)] :
             m \in Methods, who \in {"S", "T", "W"}}
-AllowOps == {<<"approve", "3000000">>, <<"approve", Z>>, <<"increaseAllowance", "1000000">>, <<"decreaseAllowance", "1000000">>,
+AllowOps == {<<"ibcTransfer", Amt>>, <<"approve", "3000000">>, <<"approve", Z>>, <<"increaseAllowance", "1000000">>, <<"decreaseAllowance", "1000000">>,
              <<"decreaseAllowance", "9000000">>, <<"revoke", Z>>, <<"delegate", Amt>>, <<"delegate", "2500000">>, <<"undelegate", Amt>>}
-AllowOp(id, x) == IF x[1] \in {"delegate", "undelegate"} THEN Pc(id, "catch", x[1], "S", x[2]) ELSE PcG(id, "catch", x[1], "C0", x[2])
+AllowOp(id, x) == IF x[1] \in {"delegate", "undelegate", "ibcTransfer"} THEN Pc(id, "catch", x[1], "S", x[2]) ELSE PcG(id, "catch", x[1], "C0", x[2])
 C04Sequences ==
     {[setup |-> Setup("a1", "self", g, Z),
       top |-> CallC(0, "catch", Z, <<AllowOp(1, a), AllowOp(2, b), AllowOp(3, c), Store(4)>>)] :
-         a \in AllowOps, b \in AllowOps, c \in AllowOps, g \in {NoGrant, <<Grant("delegate", "2000000", FALSE, 0)>>}}
+         a \in AllowOps, b \in AllowOps, c \in AllowOps,
+         g \in {NoGrant, <<Grant("delegate", "2000000", FALSE, 0)>>, <<Grant("delegate", "2000000", FALSE, 0), Grant("ibc", "1500000", FALSE, 0)>>}}
 
 Scenarios == CASE Family = "C02" -> C02Direct \cup C02ViaContract \cup C02Dirty \cup C02Nested \cup C02Forward \cup C02Plain \cup C02Own \cup C02Create
                [] Family = "C05" -> C05All
@@ -186,7 +189,9 @@ AbstractPre(x) ==
                        IF hit = {} THEN "none" ELSE LET h == x.setup.grants[CHOOSE i \in hit : TRUE] IN
                        IF h.expired THEN "expired" ELSE IF h.limit = "" THEN "unl" ELSE h.limit
         gv(g, e, t) == LET hit == {i \in 1..Len(x.setup.grants) : g = "S" /\ x.setup.grants[i].grantee = e /\ x.setup.grants[i].type = t} IN
-                       IF hit = {} THEN <<>> ELSE <<ValName(x.setup.grants[CHOOSE i \in hit : TRUE].val)>>
+                       IF hit = {} THEN <<>>
+                       ELSE LET h == x.setup.grants[CHOOSE i \in hit : TRUE] IN
+                            IF t = "ibc" THEN <<IF h.val = 0 THEN "channel-0" ELSE "channel-" \o ToString(5 + h.val)>> ELSE <<ValName(h.val)>>
     IN [ bank |-> [a \in as |-> IF a \in cs THEN "5000000000" ELSE "900000000000"],
          mods |-> [m \in {"bonded", "notbonded", "distr", "feecollector", "evm", "escrow"} |-> "70000000000"],
          supply |-> "100000000000000",
